@@ -12,8 +12,8 @@ BIN = "vh-chain-claims"
 
 INV = {"C31": "C31_ProofLeafUnpredictable", "C32": "C32_ClaimsRewardedOnceWithProof"}
 
-# specification classes whose decision is the claim window / the selected leaf (C31's footprint)
-C31_CLASSES = {"index", "internal", "mature", "height"}
+# specification classes whose decision is the END of the claim window / the selected leaf (C31's footprint)
+C31_CLASSES = {"index", "internal", "mature"}
 
 
 def _spec_class(m):
@@ -29,7 +29,7 @@ def tags_of_mismatch(m):
         return {"C32"}                      # expiry / no payment at BeginBlock
     _, mcls = _spec_class(m)
     tags = {"C32"}
-    if mcls in C31_CLASSES or (mcls == "ok" and "result of" in m.get("what", "")):
+    if mcls in C31_CLASSES or (mcls == "ok" and "result of proof" in m.get("what", "")):
         tags.add("C31")
     return tags
 
@@ -143,7 +143,18 @@ def c31(c):
     thorough = c.tier == "thorough"
     vf.build_harness([BIN])
     _assumptions(c)
-    # ---- 1. window arithmetic over all B in 1..6, W in 1..4 (TLC), every valid case on a real chain
+    # ---- 1. the selection function itself: range and determinism over many inputs
+    ncases = 20000 if thorough else 3000
+    ix = os.path.join(c.scratch, "index.ndjson")
+    iargs = ["index-fn", "-out", ix, "-cases", ncases]
+    rep = vf.run_harness(BIN, iargs, env={"VERIF_SEED": c.seed})
+    c.add("impl_steps", rep["steps"])
+    c.cov["index_spread_total5"] = rep["extra"].get("spread_total5")
+    vf.validate_trace(c, SPEC, "TraceChainClaims", "TraceChainClaims_C31.cfg", ix, "leaf index function",
+                      [BIN] + [str(a) for a in iargs], 1, timeout=3000)
+    if c.violations:
+        return c.finish(rule="stopped after the first failing stage")
+    # ---- 2. window arithmetic over all B in 1..6, W in 1..4 (TLC), every valid case on a real chain
     res = vf.run_tlc(SPEC, "MCChainClaimsTiming", "MCChainClaimsTiming_cover.cfg", c.scratch, workers=4, timeout=900)
     if not res.ok:
         raise vf.MachineryError("timing model violates %s" % res.violated)
@@ -158,6 +169,7 @@ def c31(c):
     c.add_replay(rep, "timing cases replayed: one real chain per (B, W) accepted at genesis, a claim at every case height")
     c.cov["timing_outcomes"] = rep.get("op_counts", {})
     c.cov["timing_model_only_cases"] = rep["extra"].get("model_only_cases")
+    c.cov["abandoned"] = c.cov.get("abandoned", 0) + rep["extra"].get("other_disagreements", 0)   # window start: C32's footprint
     vf.replay_mismatch_violations(c, rep, "C31 claim window", [BIN, "replay-timing", "-in", "{in}"])
     bnd = rep["extra"].get("boundary") or []
     confirmed = [b for b in bnd if b.get("specBoundary") and b.get("proofWithPredictedIndex") == "ok"]
@@ -177,13 +189,6 @@ def c31(c):
             c.violation(text, {"kind": "timing", "harness_cmd": [BIN, "replay-timing", "-in", "{in}"], "boundary": confirmed[:3]})
     if c.violations:
         return c.finish(rule="stopped after the first failing stage")
-    # ---- 2. the selection function itself: range and determinism over many inputs (validated with the chains below)
-    ncases = 20000 if thorough else 3000
-    ix = os.path.join(c.scratch, "index.ndjson")
-    iargs = ["index-fn", "-out", ix, "-cases", ncases]
-    rep = vf.run_harness(BIN, iargs, env={"VERIF_SEED": c.seed})
-    c.add("impl_steps", rep["steps"])
-    c.cov["index_spread_total5"] = rep["extra"].get("spread_total5")
     # ---- 3. design model of claims and proofs: the enforced index is the one hash(entropy block) selects
     init = os.path.join(c.scratch, "init.json")
     vf.run_harness(BIN, ["init-state", "-out", init], env={"VERIF_SEED": c.seed})
@@ -195,10 +200,8 @@ def c31(c):
             return c.finish(rule="stopped after the first failing stage")
     # ---- 4. recorded chains validated by TLC
     tr, targs, rep = _traces(c, thorough)
-    with open(tr, "a") as f:                       # index-function events are validated in the same TLC run
-        f.write(open(ix).read())
-    res = vf.validate_trace(c, SPEC, "TraceChainClaims", "TraceChainClaims_C31.cfg", tr, "scenario and random claim chains + index function evaluations",
-                            [BIN] + [str(a) for a in targs] + ["&&", BIN] + [str(a) for a in iargs], rep["behaviours"] + 1, timeout=3000)
+    res = vf.validate_trace(c, SPEC, "TraceChainClaims", "TraceChainClaims_C31.cfg", tr, "scenario and random claim chains",
+                            [BIN] + [str(a) for a in targs], rep["behaviours"], timeout=3000)
     if res.ok:
         lines = _strict_trace_hits(c, tr, "C31K")
         for ln in lines[:1]:
